@@ -314,10 +314,21 @@ fn directed(run: &mut Run, tier: Tier) {
     for &(b, _) in zmodel::tables::LL_BASE.iter() {
         for ll in [(b as usize).saturating_sub(1), b as usize, b as usize + 1] {
             if ll >= 4 && ll + 8 <= B {
-                let mut v = cmp::unique(ll, ll as u32);
+                // compressible (skewed) but repeat-free literals, so that the block is emitted in compressed form
+                // whenever the literals section pays for itself
+                let mut v = cmp::skewed_unique(ll, ll as u32);
                 let h: Vec<u8> = v[..4].to_vec();
                 v.extend_from_slice(&h);
-                cases.push((format!("literal length {ll}"), v, B, 1 << 17, vec![vec![PSeq { ll, of: ll, ml: 4 }]]));
+                cases.push((format!("literal length {ll}"), v.clone(), B, 1 << 17, vec![vec![PSeq { ll, of: ll, ml: 4 }]]));
+                // and as the second of two sequences, after a long first match
+                if ll + 600 <= B {
+                    let mut w: Vec<u8> = (0..300).map(|i| b"pq"[i % 2]).collect();
+                    let start = w.len();
+                    w.extend_from_slice(&v[..ll]);
+                    w.extend_from_slice(&vec![b'z'; 200]);
+                    cases.push((format!("literal length {ll} between two long matches"), w, B, 1 << 17, vec![vec![PSeq { ll: 2, of: 2, ml: 298 }, PSeq { ll: ll + 1, of: 1, ml: 199 }]]));
+                    let _ = start;
+                }
             }
         }
     }
